@@ -8,7 +8,7 @@ import random
 
 SHAPES = ["V", "P", "NV", "VN", "VV", "PV", "VNV", "NVVN", "VVV", "VPNV", "VVVV", "PP"]
 POLICIES = ["fast", "checked", "plain", "map", "indirect", "proj", "deferred", "backward"]
-HASHED = {"fast", "checked", "indirect", "proj", "deferred", "backward"}
+HASHED = {"fast", "checked", "indirect", "indmix", "proj", "deferred", "backward"}
 KEYS_PER_SHAPE = 3
 MAX_DEFS = 8
 
